@@ -223,5 +223,6 @@ package parser
 //@   loop 1 invariant forall(i, 0, len(allMethods), wfME(allMethods[i]))
 //@   loop 1 invariant forall(i, 0, len(allMethods), convOK(allMethods[i]))
 //@   reveal convOK
+//@   atcall resolveConverters: {C06,C03} len(list) == len(entries)
 //@   loop 2 invariant $k <= len(allMethods)
 //@   loop 3 invariant $k <= len(method.Opts.Converters)
